@@ -373,6 +373,14 @@ def run(ctx):
     ctx.traces_validated += res.get("traces", 0)
     # 5. binding self-test: a corrupted good trace must be rejected (taken from runs without any failure)
     selftest(ctx, os.path.join(res["_out"], files[0]), bad_runs)
+    # 6. extension: executions spanning several scripts in one VM (spec/vmxref, harness/c12xscript)
+    ep = os.path.join(os.path.dirname(os.path.abspath(__file__)), "c12_xscript.py")
+    if os.path.exists(ep):
+        import importlib.util
+        sp = importlib.util.spec_from_file_location("check_c12_xscript", ep)
+        m = importlib.util.module_from_spec(sp)
+        sp.loader.exec_module(m)
+        m.run_ext(ctx)
 
 
 COLLECTION_OPS = {"REMOVE", "SETITEM", "APPEND", "PICKITEM", "HASKEY", "POPITEM", "CLEARITEMS", "REVERSEIT", "VALUES", "KEYS",
